@@ -79,6 +79,9 @@ def gen_c13(tier, rng):
             for vn in (0, 1, 2, 7):
                 ops.append("bld if %s %s %s" % (prior, proto.hexs(proto.rand_bytes(rng, n)), proto.hexs(proto.rand_bytes(rng, vn))))
         cases.append(Case("c13", ops, True, ("if", "lists"), meta={"kind": "if"}))
+    # the largest list the API type admits (uint16 count)
+    cases.append(Case("c13", ["bld if default %s 616263" % ("11" * 65535), "bld if default %s 616263" % ("22" * 65534)], True, ("if", "max-count"),
+                      meta={"kind": "if", "noshrink": True}))
     # TECMP::LinPayload::setData
     ops = []
     for n in range(0, 64):
@@ -128,6 +131,33 @@ def pred_c13(case, impl, model, ctx):
         raw = unhex(toks[0][4:])
         if raw != exp:
             return False
+        # the getters return exactly the data and lengths supplied: every reported view is the supplied data
+        views = {}
+        for t in toks[1:]:
+            if "=" in t and ":" in t.split("=")[1] and not t.startswith("pkt="):
+                nm, v = t.split("=")
+                off, ln = v.split(":")
+                views[nm] = (None if off == "null" else int(off), int(ln))
+        if "valid=1" in toks:
+            want = {}
+            if k in ("can", "canfd", "lin", "eth"):
+                want["data"] = last[0]
+            elif k == "cm":
+                want = dict(zip(["deviceDescription", "serialNumber", "hardwareVersion", "softwareVersion"], last[:4]))
+                want["vendorData"] = last[4]
+            elif k == "if":
+                want = {"streamIds": last[0], "vendorData": last[1]}
+            for nm, d in want.items():
+                if nm not in views:
+                    return False
+                off, ln = views[nm]
+                if ln != len(d):
+                    return False
+                if off is None:
+                    if len(d) != 0:
+                        return False
+                elif raw[off:off + ln] != d:
+                    return False
         excluded = False
         if k in ("can", "canfd"):
             excluded = (int.from_bytes(prior[0:2], "big") & 0x03FF) != 0 or prior[12:14] != b"\0\0"
